@@ -24,7 +24,7 @@ static int agree(int r)	/* do the two copies of row r's sense / range agree? */
 	if (s == 'L') return cf == 1 && up == QSV_INF && rg == 0;
 	if (s == 'G') return cf == -1 && up == QSV_INF && rg == 0;
 	if (s == 'E') return cf == 1 && up == 0 && rg == 0;
-	if (s == 'R') return (cf == 1 || cf == -1) && up == rg;
+	if (s == 'R') return cf == -1 && up == rg;	/* a ranged row is rhs <= a.x <= rhs + range: a.x - s = rhs with 0 <= s <= range (as ILLlib_addrow and the readers store it) */
 	return 0;
 }
 static void build(void)
@@ -41,7 +41,7 @@ static void build(void)
 		int lc = O->rowmap[r]; char s = "LGER"[pick(0, 3)];
 		A->matbeg[lc] = lc; A->matcnt[lc] = 1; A->matind[lc] = r; O->sense[r] = s;
 		qsv_setnum(O->lower[lc], 0);
-		if (s == 'R') { int rg = qsv_nondet_payload(); ASSUME(O->rangeval != 0 && rg >= 0); qsv_setnum(O->rangeval[r], rg); qsv_setnum(O->upper[lc], rg); qsv_setnum(A->matval[lc], nondet_bool() ? 1 : -1); }
+		if (s == 'R') { int rg = qsv_nondet_payload(); ASSUME(O->rangeval != 0 && rg >= 0); qsv_setnum(O->rangeval[r], rg); qsv_setnum(O->upper[lc], rg); qsv_setnum(A->matval[lc], -1); }
 		else { if (O->rangeval) qsv_setnum(O->rangeval[r], 0); qsv_setnum(O->upper[lc], s == 'E' ? 0 : QSV_INF); qsv_setnum(A->matval[lc], s == 'G' ? -1 : 1); }
 		ASSERT(agree(r), "harness: the initial state satisfies the representation invariant");
 		s0[r] = s; rng0[r] = O->rangeval ? NUMV(O->rangeval[r]) : 0; up0[r] = NUMV(O->upper[lc]); lo0[r] = 0; cf0[r] = NUMV(A->matval[lc]);
